@@ -172,6 +172,13 @@ class Ext:
         return f"<ext {self.dotted}>"
 
 
+STEP_BUDGET = 400_000
+
+
+class StepBudget(Unsupported):
+    """one abstract path ran twenty times longer than any path of the unchanged tree: with concrete inputs this is a loop that does not end"""
+
+
 class ModuleRaises(Unsupported):
     """the top level of a module of the package raises (a concrete exception of the program, not a gap of the interpreter)"""
     def __init__(self, module, exc, text):
@@ -621,8 +628,9 @@ class Interp:
 
     def exec(self, s, env, mod):
         self.steps += 1
-        if self.steps > 3_000_000:
-            raise Unsupported("step budget exhausted")
+        if self.steps > STEP_BUDGET:
+            # the largest path of the unchanged tree takes about 20 000 steps
+            raise StepBudget(f"step budget exhausted ({STEP_BUDGET} statements on one path)")
         m = getattr(self, "x_" + type(s).__name__, None)
         if m is None:
             raise Unsupported(f"statement {type(s).__name__} at {mod.name}:{s.lineno}")
